@@ -72,7 +72,8 @@ fn plen(r: &mut Rng, big: bool) -> usize {
 }
 
 fn sock(r: &mut Rng, v6: bool) -> SocketAddr {
-    let port = *r.pick(&[0u16, 1, 255, 256, 443, 65535, r.next_u64() as u16]);
+    let rp = r.next_u64() as u16;
+    let port = *r.pick(&[0u16, 1, 255, 256, 443, 65535, rp]);
     if v6 {
         let ip = match r.below(4) { 0 => 0u128, 1 => u128::MAX, 2 => 1, _ => ((r.next_u64() as u128) << 64) | r.next_u64() as u128 };
         SocketAddr::new(IpAddr::V6(Ipv6Addr::from(ip)), port)
@@ -235,7 +236,8 @@ fn gen_frame(r: &mut Rng, kind: u64, sink: &mut Sink) -> (Frame, bool, bool) {
         }
         5 => {
             let s = reason(r);
-            let k = if r.chance(1, 4) { ErrorKind::Crypto(*r.pick(&[0u8, 1, 0x7f, 0x80, 0xff, r.next_u64() as u8])) } else { *r.pick(&KINDS) };
+            let rb = r.next_u64() as u8;
+            let k = if r.chance(1, 4) { ErrorKind::Crypto(*r.pick(&[0u8, 1, 0x7f, 0x80, 0xff, rb])) } else { *r.pick(&KINDS) };
             let (t, wf_t) = match r.below(4) {
                 0 => { let v = bv(r); (ErrorFrameType::Ext(vi(v)), FrameType::try_from(vi(v)).is_err()) }
                 1 => { let v = *r.pick(&[0x1fu64, 0x20, 0x2f, 0x32, 0x40, 0x3d7e8f, 0x3d7e97, 0x3fff, 0x4000, VMAX]); (ErrorFrameType::Ext(vi(v)), true) }
@@ -264,7 +266,7 @@ fn gen_frame(r: &mut Rng, kind: u64, sink: &mut Sink) -> (Frame, bool, bool) {
         16 => {
             let n = if r.chance(1, 3) { *r.pick(&[(1u64 << 60) - 1, 1 << 60, (1 << 60) + 1]) } else { bv(r) };
             let d = if r.chance(1, 2) { Dir::Bi } else { Dir::Uni };
-            (Frame::StreamCtl(MaxStreamsFrame::with(d, vi(n)).into()), n <= 1 << 60, true)
+            (Frame::StreamCtl(MaxStreamsFrame::with(d, vi(n)).into()), n <= qbase::sid::MAX_STREAMS_LIMIT, true)
         }
         17 => (Frame::StreamCtl(StreamDataBlockedFrame::new(StreamId::from(vi(bv(r))), vi(bv(r))).into()), true, true),
         18 => {
@@ -362,7 +364,8 @@ fn enc_op(r: &mut Rng, sink: &mut Sink, kind: u64) -> Option<Vec<u8>> {
     let perm = permitted(&f);
     let pti = if r.chance(5, 6) { *r.pick(&perm) } else { r.below(6) };
     let (pt, ptn) = pkt_type(pti);
-    let tail = if delimited && r.chance(1, 2) { r.bytes(r.range(1, 9) as usize) } else { vec![] };
+    let tn = r.range(1, 9) as usize;
+    let tail = if delimited && r.chance(1, 2) { r.bytes(tn) } else { vec![] };
     let op = format!("enc {} {} {}", ptn, hex(&tail), show(&f));
     sink.pending(&op);
     let e = match encode(&f) {
@@ -449,7 +452,7 @@ pub fn run_dec(o: &Opts) {
                 0 => { let n = rng.below(b.len() as u64 + 1) as usize; b.truncate(n); sink.branch("mut:truncate"); }
                 1 => { if !b.is_empty() { let p = rng.below(b.len() as u64) as usize; b[p] = rng.next_u64() as u8; } sink.branch("mut:byte"); }
                 2 => { if !b.is_empty() { let p = rng.below(b.len() as u64) as usize; b[p] ^= 1 << rng.below(8); } sink.branch("mut:bit"); }
-                3 => { let n = rng.range(1, 12) as usize; b.extend(rng.bytes(n)); sink.branch("mut:extend"); }
+                3 => { let n = rng.range(1, 12) as usize; let x = rng.bytes(n); b.extend(x); sink.branch("mut:extend"); }
                 4 => {
                     // overwrite a position after the type with a boundary varint
                     let v = bv(&mut rng);
@@ -458,15 +461,15 @@ pub fn run_dec(o: &Opts) {
                     let p = rng.range(1, b.len().max(1) as u64) as usize;
                     b.truncate(p.min(b.len()));
                     b.extend(enc);
-                    b.extend(rng.bytes(rng.below(20) as usize));
+                    let n = rng.below(20) as usize; let x = rng.bytes(n); b.extend(x);
                     sink.branch("mut:varint");
                 }
-                5 => { b = rng.bytes(rng.below(24) as usize); sink.branch("mut:random"); }
+                5 => { let n = rng.below(24) as usize; b = rng.bytes(n); sink.branch("mut:random"); }
                 6 => {
                     // frame type from the table + random body
                     let mut enc = vec![];
                     qbase::varint::WriteVarInt::put_varint(&mut enc, &vi(*rng.pick(&FT_NUMS)));
-                    enc.extend(rng.bytes(rng.below(40) as usize));
+                    let n = rng.below(40) as usize; let x = rng.bytes(n); enc.extend(x);
                     b = enc;
                     sink.branch("mut:type+random");
                 }
